@@ -9,7 +9,7 @@ theorem newStep_congr (lk : Leaks) (fl : NFlags) (files : Disk) (st st' : NSt) (
     (h1 : (lk.hasNew && st.hasNew) = (lk.hasNew && st'.hasNew))
     (h2 : (if lk.newAcc then st.accs else []) = (if lk.newAcc then st'.accs else [])) :
     newStep lk fl files st t = newStep lk fl files st' t := by
-  simp only [newStep, h1, h2]
+  simp only [newStep, newCore, h1, h2]
 
 theorem newStep_noLeaks (fl : NFlags) (files : Disk) (st : NSt) (t : NType) :
     newStep noLeaks fl files st t = newStep noLeaks fl files {} t :=
@@ -120,17 +120,94 @@ theorem newStep_irrelevant (fl : NFlags) (files : Disk) (st : NSt) (t : NType)
     · right; right; simpa using h
   cases hj : fl.json with
   | false =>
-    simp only [newStep, codeToday, Bool.true_and, ↓reduceIte, hp, hj, Bool.false_and, Bool.false_eq_true,
+    simp only [newStep, newCore, codeToday, Bool.true_and, ↓reduceIte, hp, hj, Bool.false_and, Bool.false_eq_true,
       List.nil_append]
   | true =>
     simp only [accRelevant, hj, Bool.true_and, Bool.or_eq_false_iff] at h2
     have hg := jpick_irrelevant true (switchOf fl t) t st.accs
-      (embedAccs (switchOf fl t) files (((onceAux ((Ctor.flatten t.tree).filter (fun f => !f.isShadowed)) []).filter (·.isEmbeded)).map (·.name)))
-      _ (accRelevantFor_false h2.1)
+      (embedAccs (switchOf fl t) files (embedsOf t)) _ (accRelevantFor_false h2.1)
     have hs := jpick_irrelevant false (switchOf fl t) t st.accs
-      (embedAccs (switchOf fl t) files (((onceAux ((Ctor.flatten t.tree).filter (fun f => !f.isShadowed)) []).filter (·.isEmbeded)).map (·.name)))
-      _ (accRelevantFor_false h2.2)
-    simp only [newStep, codeToday, Bool.true_and, ↓reduceIte, hp, hg, hs, List.nil_append]
+      (embedAccs (switchOf fl t) files (embedsOf t)) _ (accRelevantFor_false h2.2)
+    simp only [newStep, newCore, codeToday, Bool.true_and, ↓reduceIte, hp, hg, hs, List.nil_append]
+
+/-! ### `new`: generated files are read only through the look-ups of the embedded types (C07) -/
+
+theorem filterMap_congr' {α β : Type} {f g : α → Option β} {l : List α} (h : ∀ x ∈ l, f x = g x) :
+    l.filterMap f = l.filterMap g := by
+  induction l with
+  | nil => rfl
+  | cons a l ih =>
+    simp only [List.filterMap_cons, h a (List.mem_cons_self ..)]
+    rw [ih (fun x hx => h x (List.mem_cons_of_mem _ hx))]
+
+theorem flatMap_congr' {α β : Type} {f g : α → List β} {l : List α} (h : ∀ x ∈ l, f x = g x) :
+    l.flatMap f = l.flatMap g := by
+  induction l with
+  | nil => rfl
+  | cons a l ih =>
+    simp only [List.flatMap_cons, h a (List.mem_cons_self ..)]
+    rw [ih (fun x hx => h x (List.mem_cons_of_mem _ hx))]
+
+theorem newStep_files_congr (lk : Leaks) (fl : NFlags) (f₁ f₂ : Disk) (st : NSt) (t : NType)
+    (h : ∀ e ∈ embedsOf t,
+      lookupIface f₁ (e ++ "Getter") = lookupIface f₂ (e ++ "Getter") ∧
+      lookupIface f₁ (e ++ "Setter") = lookupIface f₂ (e ++ "Setter")) :
+    newStep lk fl f₁ st t = newStep lk fl f₂ st t := by
+  have hg : ∀ on, embedIfaces on f₁ "Getter" (embedsOf t) = embedIfaces on f₂ "Getter" (embedsOf t) := by
+    intro on
+    cases on with
+    | false => rfl
+    | true =>
+      simp only [embedIfaces, ↓reduceIte]
+      exact filterMap_congr' (fun e he => by rw [(h e he).1])
+  have hs : ∀ on, embedIfaces on f₁ "Setter" (embedsOf t) = embedIfaces on f₂ "Setter" (embedsOf t) := by
+    intro on
+    cases on with
+    | false => rfl
+    | true =>
+      simp only [embedIfaces, ↓reduceIte]
+      exact filterMap_congr' (fun e he => by rw [(h e he).2])
+  have ha : ∀ sw, embedAccs sw f₁ (embedsOf t) = embedAccs sw f₂ (embedsOf t) := by
+    intro sw
+    simp only [embedAccs]
+    exact flatMap_congr' (fun e he => by rw [(h e he).1, (h e he).2])
+  unfold newStep
+  rw [hg, hs, ha]
+
+theorem onceAux_sublist : ∀ (l : List Ctor.Field) (seen : List String), (onceAux l seen).Sublist l := by
+  intro l
+  induction l with
+  | nil => intro _; simp [onceAux]
+  | cons a l ih =>
+    intro seen
+    simp only [onceAux]
+    split
+    · exact (ih seen).cons a
+    · exact (ih _).cons₂ a
+
+theorem embedsOf_nil (t : NType) (h : (Ctor.flatten t.tree).all (fun f => !f.isEmbeded) = true) : embedsOf t = [] := by
+  simp only [embedsOf, List.map_eq_nil_iff, List.filter_eq_nil_iff]
+  intro f hf
+  have hsub := (onceAux_sublist ((Ctor.flatten t.tree).filter (fun f => !f.isShadowed)) []).trans List.filter_sublist
+  have := List.all_eq_true.mp h f (hsub.subset hf)
+  simpa using this
+
+/-- machines whose step ignores the directory give the same run over any two directories -/
+theorem generate_disk_irrelevant {σ τ ω : Type} (m : Machine σ τ ω) (hm : ∀ f f' s t, m.step f s t = m.step f' s t)
+    (d₁ d₂ : Disk) (ts : List τ) : generate m d₁ ts = generate m d₂ ts := by
+  have key : ∀ (ts : List τ) (ls : LoopSt σ τ ω), loop m d₁ ls ts = loop m d₂ ls ts := by
+    intro ts
+    induction ts with
+    | nil => intro ls; rfl
+    | cons t ts ih =>
+      intro ls
+      have hi : ∀ last, iter m d₁ ls t last = iter m d₂ ls t last := by
+        intro last
+        simp only [iter, hm (effective d₁ ls.overlay) (effective d₂ ls.overlay)]
+      cases ts with
+      | nil => simp only [loop, hi]
+      | cons t' ts' => simp only [loop, hi]; exact ih _
+  simp only [generate, key]
 
 /-! ### `map` -/
 
